@@ -427,6 +427,9 @@ def _generator_rule(db, rep):
                         'every copy recorded and every alias unique', 2)
     from rules import C12
     C12.merge_evaluated(db, r9)
+    r10 = rep.rule('r10', 'RENUMBER-FAITHFUL (shared with C13 r8): ResetAliases interpreted on schemas with gaps keeps the referent of every mention, never gives a dangling mention a meaning, and leaves the registry holding exactly the names in use', 1)
+    from rules import C13
+    C13.renumber_evaluated(db, r10)
     r7 = rep.rule('r7', 'VIEWS (shared with C07 r1): a membership change of schema / thesaurus storage is followed by the removal or rebuild in every derived graph', 10)
     from rules import C07
     from engine.modset import ModSets
